@@ -234,7 +234,11 @@ pub(crate) fn convert_inner(
     );
 
     let abs_transform = parent.abs_transform.pre_concat(image_ts);
-    let abs_bounding_box = rect.transform(abs_transform)?;
+    // `abs_transform` includes the image view box transform already,
+    // so it must be applied to the image itself and not to the `image` element rect.
+    let abs_bounding_box = actual_size
+        .to_non_zero_rect(0.0, 0.0)
+        .transform(abs_transform)?;
 
     let mut g = Group::empty();
     g.id = id;
